@@ -1,15 +1,20 @@
-import EAO.Model.Basic
 /-!
-# EAO.Model.Grid — model of `Timegrid`, `set_restricted_grid`, `values_to_grid`
+# EAO.Model.Grid — model of `Timegrid`, `set_restricted_grid`, `values_to_grid`, `prep_date_dict`
+(`eaopack/basic_classes.py`).  Import-free core Lean.
 
 Instants are `Int` seconds (UTC).  A grid keeps, per step: the instant of its start, the index with
 respect to the reference grid (`I`), the step length `dt` and cumulative time `Dt` (END of the step)
 in main time units, and a discount factor.  Discount factors `(1+wacc)^(-Dt·unit/365d)` are
-irrational in general: they are an input (`φ`), supplied per step.
+irrational in general: they are an input (`φ`), supplied per step; `df = []` models a grid object
+without the attribute `discount_factors` (`set_wacc` not called).
 
 Tick frequencies (fixed number of seconds: 'h', '15min', naive or UTC 'd', …) are generated here;
 for calendar frequencies the list of all points (as pandas' `date_range` returns it, including the
-point after the last step) is an input.
+point after the last step) is an input.  Localisation of naive datetimes is done by pandas before
+instants reach the model.
+
+Numpy idioms are modelled literally: a boolean mask over the reference points (`Grid.mask`) and
+selection by mask (`sel`, i.e. `arr[mask]`).
 -/
 namespace EAO
 
@@ -18,12 +23,24 @@ structure Grid where
   idx   : List Nat        -- `I`
   dt    : List Rat
   Dt    : List Rat
-  df    : List Rat        -- discount factors (1 everywhere for wacc = 0)
-  deriving Repr, Inhabited
+  df    : List Rat        -- discount factors (`[]`: attribute absent)
+  deriving Repr, Inhabited, DecidableEq
 
 def Grid.T (g : Grid) : Nat := g.pts.length
 
-/-- `pd.date_range(start, end, freq)` for a tick frequency: `start, start+step, … ≤ stop` (fuel-bounded) -/
+inductive GridError
+  | overlap        -- ValueError('Overlapping time intervals')
+  | emptyCoarse    -- ValueError: `min` of an empty array (coarse interval without fine step)
+  | index          -- IndexError (`ref.Dt[myI]` with a reference grid whose `I` is not `0..T-1`)
+  | assertion      -- failed `assert`
+  | length         -- ValueError: length mismatch of an already gridded array
+  deriving Repr, DecidableEq, Inhabited
+
+def GridError.toString : GridError → String
+  | .overlap => "overlap" | .emptyCoarse => "empty-coarse" | .index => "index"
+  | .assertion => "assert" | .length => "length"
+
+/-- `pd.date_range(start, end, freq)` for a tick frequency: `start, start+step, … ≤ stop` -/
 def tickRange (start stop : Int) (step : Nat) : List Int :=
   if step = 0 ∨ stop < start then [] else
   (List.range (((stop - start) / (step : Int)).toNat + 1)).map fun (k : Nat) => start + (k : Int) * (step : Int)
@@ -45,50 +62,94 @@ def Grid.ofPoints (allPts : List Int) (unitSec : Nat) (df : List Rat) : Grid :=
 def Grid.ofTicks (start stop : Int) (step unitSec : Nat) (df : List Rat) : Grid :=
   Grid.ofPoints (tickRange start stop step) unitSec df
 
+/-- the constructor's `assert self.start < self.end` in front of the construction -/
+def Grid.make (start stop : Int) (allPts : List Int) (unitSec : Nat) (df : List Rat) : Except GridError Grid :=
+  if start < stop then .ok (Grid.ofPoints allPts unitSec df) else .error .assertion
+
+/-- what the model assumes about points supplied for a calendar frequency (evaluated by the harness on
+    what pandas returned; anchored offsets such as 'MS', 'W' violate `first = start`: finding F-19a) -/
+def CalendarOK (allPts : List Int) (start stop : Int) : Bool :=
+  decide (allPts.Pairwise (· < ·)) && (allPts.head? == some start) && allPts.all (fun p => decide (p ≤ stop))
+
 /-- positions of a grid whose point satisfies `p` -/
 def Grid.select (g : Grid) (p : Int → Bool) : List Nat :=
   (List.range g.T).filter fun i => p (g.pts.getD i 0)
 
-def pick {α} [Inhabited α] (xs : List α) (is : List Nat) : List α := is.map fun i => xs.getD i default
+/-- numpy `arr[mask]` -/
+def sel {α} : List Bool → List α → List α
+  | true :: m, x :: xs => x :: sel m xs
+  | false :: m, _ :: xs => sel m xs
+  | _, _ => []
+
+/-- `(ref.timepoints >= s) & (ref.timepoints < e)` -/
+def Grid.mask (g : Grid) (s e : Int) : List Bool := g.pts.map fun p => decide (s ≤ p) && decide (p < e)
 
 /-- restricted grid of the same frequency: the points in `[s, e)` with their original `I`, `dt`, `Dt`, `df` -/
 def Grid.restrict (g : Grid) (s e : Int) : Grid :=
-  let is := g.select fun p => decide (s ≤ p) && decide (p < e)
-  { pts := pick g.pts is, idx := pick g.idx is, dt := pick g.dt is, Dt := pick g.Dt is, df := pick g.df is }
+  let m := g.mask s e
+  { pts := sel m g.pts, idx := sel m g.idx, dt := sel m g.dt, Dt := sel m g.Dt, df := sel m g.df }
 
 /-- coarse restricted grid.  `cuts` = `date_range(start, end, freq)`; one coarse step per consecutive
-    pair of cuts: first minor index, summed `dt`, `Dt`/point/discount of the FIRST minor step.  An
-    empty coarse interval makes the implementation raise (`min` of an empty array): `none`. -/
+    pair of cuts: `I` = smallest reference index of its minor steps, summed `dt`; `Dt`, point and
+    discount factor are read from the reference arrays AT POSITION `I` (the code indexes with the index
+    value; for a top-level or re-based reference grid position and value coincide). -/
 structure CoarseGrid where
   grid  : Grid
   minor : List (List Nat)     -- `I_minor_in_major`: reference indices of the minor steps per coarse step
-  deriving Repr, Inhabited
+  deriving Repr, Inhabited, DecidableEq
 
-def coarseSteps (g : Grid) : List Int → Option (List (List Nat))
+structure CoarseCell where
+  I     : Nat
+  minor : List Nat
+  pt    : Int
+  dt    : Rat
+  Dt    : Rat
+  df    : Option Rat
+  deriving Repr, Inhabited, DecidableEq
+
+/-- discount factor of a coarse step: `some none` = the reference has no discount factors,
+    `none` = IndexError -/
+def dfAt (g : Grid) (i : Nat) : Option (Option Rat) :=
+  if g.df.isEmpty then some none else (g.df[i]?).map some
+
+def coarseCell (g : Grid) (a b : Int) : Except GridError CoarseCell :=
+  match sel (g.mask a b) g.idx with
+  | [] => .error .emptyCoarse
+  | i :: is =>
+    match g.Dt[is.foldl min i]?, g.pts[is.foldl min i]?, dfAt g (is.foldl min i) with
+    | some D, some p, some f =>
+      .ok { I := is.foldl min i, minor := i :: is, pt := p, dt := (sel (g.mask a b) g.dt).sum, Dt := D, df := f }
+    | _, _, _ => .error .index
+
+def coarseCells (g : Grid) : List Int → Except GridError (List CoarseCell)
   | a :: b :: rest =>
-    let is := g.select fun p => decide (a ≤ p) && decide (p < b)
-    if is.isEmpty then none else
-    match coarseSteps g (b :: rest) with
-    | none => none
-    | some more => some (is :: more)
-  | _ => some []
+    match coarseCell g a b with
+    | .error e => .error e
+    | .ok c =>
+      match coarseCells g (b :: rest) with
+      | .error e => .error e
+      | .ok more => .ok (c :: more)
+  | _ => .ok []
 
-def Grid.coarsen (g : Grid) (cuts : List Int) : Option CoarseGrid :=
-  match coarseSteps g cuts with
-  | none => none
-  | some groups =>
-    let firsts := groups.map fun is => is.headD 0
-    some { grid := { pts := pick g.pts firsts, idx := pick g.idx firsts,
-                     dt := groups.map fun is => (pick g.dt is).sum,
-                     Dt := pick g.Dt firsts, df := pick g.df firsts },
-           minor := groups.map fun is => pick g.idx is }
+def Grid.coarsen (g : Grid) (cuts : List Int) : Except GridError CoarseGrid :=
+  match coarseCells g cuts with
+  | .error e => .error e
+  | .ok cells =>
+    .ok { grid := { pts := cells.map (·.pt), idx := cells.map (·.I), dt := cells.map (·.dt),
+                    Dt := cells.map (·.Dt), df := cells.filterMap (·.df) },
+          minor := cells.map (·.minor) }
+
+/-- with the guard `assert freq_a >= freq_p` (lengths of the two frequencies as `pd.Timedelta` computes
+    them, any common unit) -/
+def Grid.coarsenChecked (g : Grid) (freqA freqP : Nat) (cuts : List Int) : Except GridError CoarseGrid :=
+  if freqA < freqP then .error .assertion else g.coarsen cuts
 
 /-- interval data `{start, end, values}` after normalisation; `stop = none` means "for ever" -/
 structure Interval where
   start : Int
   stop  : Option Int
   value : Rat
-  deriving Repr, Inhabited
+  deriving Repr, Inhabited, DecidableEq
 
 /-- implicit ends: `end_i = start_{i+1}`, the last interval is extended generously by twice the last gap;
     a single start is valid for ever -/
@@ -102,11 +163,21 @@ def implicitEnds (starts : List Int) : List (Option Int) :=
     let prev := starts.getD (n - 2) 0
     (starts.drop 1).map some ++ [some (last + 2 * (last - prev))]
 
+/-- `zip(inp['start'], inp['end'], inp['values'])` (the shortest list decides).  `forever`: what the
+    implementation uses as end of a single start without end (`pd.Timestamp.max` after localisation to
+    the grid's zone, computed by pandas; `none` = unbounded). -/
+def mkIntervals (starts : List Int) (ends : Option (List Int)) (values : List Rat) (forever : Option Int) : List Interval :=
+  let es : List (Option Int) := match ends with
+    | some es => es.map some
+    | none => (implicitEnds starts).map fun e => match e with | some x => some x | none => forever
+  ((starts.zip es).zip values).map fun q => { start := q.1.1, stop := q.1.2, value := q.2 }
+
+/-- `prep_date_dict`: the result always has an `end` list, EMPTY when the input has none -/
+def prepDateDict (starts : List Int) (ends : Option (List Int)) (values : List Rat) : List Int × Option (List Int) × List Rat :=
+  (starts, some (ends.getD []), values)
+
 def Interval.contains (iv : Interval) (p : Int) : Bool :=
   decide (iv.start ≤ p) && (match iv.stop with | none => true | some e => decide (p < e))
-
-inductive GridError | overlap
-  deriving Repr, DecidableEq
 
 /-- `values_to_grid`: intervals are applied in order; touching a point that already has a value is an
     error; points in no interval stay undefined (`none` = NaN) -/
@@ -118,5 +189,9 @@ def valuesToGridAux (pts : List Int) : List Interval → List (Option Rat) → E
 
 def valuesToGrid (pts : List Int) (ivs : List Interval) : Except GridError (List (Option Rat)) :=
   valuesToGridAux pts ivs (pts.map fun _ => none)
+
+/-- `prices_to_grid` for an array that is already on the grid (no NaN inside): unchanged, if the length fits -/
+def pricesPassThrough (T : Nat) (arr : List Rat) : Except GridError (List Rat) :=
+  if arr.length = T then .ok arr else .error .length
 
 end EAO
